@@ -6,8 +6,10 @@ M = [
      "\t\t\t\tOk(Some(())) => break,\n\t\t\t\tErr(de_err) => {\n\t\t\t\t\tself.0.capture_child_error(seed.0);"),
     ("key_written_as_value", "C01", "e3_k20_attribution", "src/transcode/stream.rs",
      "|ser, key| ser.serialize_key(key)", "|ser, key| ser.serialize_value(key)"),
-    ("i16_widened", "C01", "e3_k20_attribution", "src/transcode/stream.rs",
-     "visit_i16(v: i16) => |ser| ser.serialize_i16(v);", "visit_i16(v: i16) => |ser| ser.serialize_i32(v.into());"),
+    # (widening i16 -> serialize_i32 is reported by K20 but is invisible in all four output formats: the native replay
+    #  does not reproduce it and the check answers INCONCLUSIVE, which is the intended behaviour for an equivalent mutant)
+    ("u64_through_i64", "C01", "e3_k20_attribution", "src/transcode/stream.rs",
+     "visit_u64(v: u64) => |ser| ser.serialize_u64(v);", "visit_u64(v: u64) => |ser| ser.serialize_i64(v as i64);"),
     ("value_seed_verdict_dropped", "C11", "e3_k20_attribution", "src/transcode/stream.rs",
      "\t\t\tif let Err(de_err) = de.next_value_seed(&mut value_seed) {\n\t\t\t\tself.0.capture_child_error(value_seed.0);\n\t\t\t\treturn Err(de_err);",
      "\t\t\tif let Err(de_err) = de.next_value_seed(&mut value_seed) {\n\t\t\t\treturn Err(de_err);"),
